@@ -112,6 +112,14 @@ def gather(ctx: Ctx):
     for _ in range(ctx.pick(300, 3000)):
         L = rng.randint(1, 7)
         cases.append(("unicode", "".join(rng.choice(ALPHABET + UNICODE + list("ussollan")) for _ in range(L))))
+    # blanks that Python's \s / str.strip know but Lark's WS does not, at the edges of condition parts and between tokens
+    import re
+    exotic = [chr(i) for i in range(0x3100) if (chr(i).isspace() or re.fullmatch(r"\s", chr(i))) and chr(i) not in " \t\f\r\n"]
+    ctx.coverage["exotic_blanks"] = len(exotic)
+    for c in exotic:
+        for shape in ("Muss{c}[1]", "Muss[1]{c}", "Muss [1] Soll{c}[2]", "Muss[1]{c}Soll[2]", "X{c}[1]", "X[1]{c}", "Muss{c}", "{c}Muss[1]", "[1]{c}U[2]", "{c}[1]", "[1]{c}",
+                      "Muss [1]{c}U [2]", "Muss{c} [1]", "Muss [1] {c}"):
+            cases.append(("exotic-blank", shape.replace("{c}", c)))
     cases.append(("deep", "(" * 300 + "[1]" + ")" * 300))
     cases.append(("deep", "(" * 300 + "[1]" + ")" * 299))
     cases.append(("long-key", "[" + "7" * 4400 + "]"))
@@ -141,7 +149,7 @@ async def _is_valid(s: str):
 
 def run(ctx: Ctx) -> None:
     ctx.rule = ("valid condition / AHB expressions, AHB expressions with one corrupted part, 1-3 character-level mutations, all strings up to length "
-                "3/4 over a 15-symbol alphabet (exhaustive), random strings, a Unicode stream; three entry points + validity check each; "
+                "3/4 over a 15-symbol alphabet (exhaustive), random strings, a Unicode stream, every non-WS blank character (\\s / str.isspace) in 14 positions; three entry points + validity check each; "
                 "non-trivial = not the empty string; distinct strings counted")
     ctx.coverage["generated_changed"] = extract.regenerate(["CharClasses", "Grammar"])
     ok = ctx.lean_build(MODULES)
@@ -187,6 +195,13 @@ def run(ctx: Ctx) -> None:
                 if row["resolve_default"] != "tree":
                     ctx.violation(f"is_valid_expression raises {type(e).__name__} on malformed input", {"entry": "is_valid_expression", "s": s, "raised": type(e).__name__},
                                   key=f"isvalid-raise:{type(e).__name__}:{'ahb-shaped' if 'parts' in a else 'other'}")
+        # an AHB expression whose indicator structure is fine but whose condition part is malformed is rejected too (both sides: the real parsers)
+        if "parts" in a and isinstance(row["resolve"], list):
+            for part in a["parts"]:
+                if part[0] == "part" and "err" in P.parse_cond(part[3]):
+                    ctx.violation("the resolver accepts an AHB expression although one of its condition parts is rejected by the condition parser",
+                                  {"entry": "resolve", "s": s, "condition_part": part[3], "condition_parser_says": P.parse_cond(part[3])["err"]}, key=f"badpart:{s}")
+                    break
         doc = documented_single_atom(s)
         if doc is not None and (not isinstance(row["cond"], str)) != doc:
             ctx.violation(("something that is not a documented key / package / time condition is accepted" if not doc else "a documented atom is rejected") + " by the condition parser",
